@@ -315,6 +315,33 @@ impl<V> IntMap<u32, V> {
     pub fn get(&self, k: &u32) -> (r: Option<&V>)
         ensures (r is Some) == self@.contains_key(*k), r is Some ==> *(r->0) == self@[*k],
     { unimplemented!() }
+    /// HashMap::iter: every (key, value) pair exactly once, in an unspecified order (TRUSTED iterator shim)
+    #[verifier::external_body]
+    pub fn iter(&self) -> (r: IntMapIter<'_, V>)
+        ensures enumerates_ref(intmap_iter_rem(r), self@),
+    { unimplemented!() }
+}
+#[verifier::external_body]
+#[verifier::reject_recursive_types(V)]
+pub struct IntMapIter<'a, V> { _p: core::marker::PhantomData<&'a V> }
+pub uninterp spec fn intmap_iter_rem<'a, V>(it: IntMapIter<'a, V>) -> Seq<(&'a u32, &'a V)>;
+impl<'a, V> Iterator for IntMapIter<'a, V> {
+    type Item = (&'a u32, &'a V);
+    #[verifier::external_body]
+    fn next(&mut self) -> Option<(&'a u32, &'a V)> { unimplemented!() }
+}
+impl<'a, V> vstd::std_specs::iter::IteratorSpecImpl for IntMapIter<'a, V> {
+    open spec fn obeys_prophetic_iter_laws(&self) -> bool { true }
+    open spec fn remaining(&self) -> Seq<(&'a u32, &'a V)> { intmap_iter_rem(*self) }
+    open spec fn will_return_none(&self) -> bool { true }
+    open spec fn decrease(&self) -> Option<nat> { Some(intmap_iter_rem(*self).len()) }
+    open spec fn peek(&self, i: int) -> Option<(&'a u32, &'a V)> {
+        if 0 <= i < intmap_iter_rem(*self).len() { Some(intmap_iter_rem(*self)[i]) } else { None }
+    }
+}
+pub open spec fn enumerates_ref<V>(pairs: Seq<(&u32, &V)>, m: Map<u32, V>) -> bool {
+    &&& forall|i: int| 0 <= i < pairs.len() ==> m.contains_key(*(#[trigger] pairs[i]).0) && m[*pairs[i].0] == *pairs[i].1
+    &&& forall|k: u32| m.contains_key(k) ==> exists|i: int| 0 <= i < pairs.len() && *(#[trigger] pairs[i]).0 == k
 }
 // @end
 
@@ -863,5 +890,118 @@ impl AseReader {
             r is Ok ==> final(buf)@ == old(self).data().subrange(old(self).pos(), old(self).pos() + old(buf)@.len())
                 && final(self).pos() == old(self).pos() + old(buf)@.len(),
     { unimplemented!() }
+}
+// @end
+
+// @section utils_shims
+/// shim for image::RgbaImage as util.rs uses it: raw RGBA bytes, row-major (ASSUMED contracts of a dependency)
+#[verifier::external_body]
+pub struct RgbaImage { _p: core::marker::PhantomData<u8> }
+impl RgbaImage {
+    pub uninterp spec fn w(&self) -> nat;
+    pub uninterp spec fn h(&self) -> nat;
+    pub uninterp spec fn raw(&self) -> Seq<u8>;
+    #[verifier::external_body]
+    pub fn dimensions(&self) -> (r: (u32, u32))
+        ensures r.0 == self.w(), r.1 == self.h(),
+    { unimplemented!() }
+    /// ImageBuffer::as_raw (a &Vec<u8>; the call sites only slice it)
+    #[verifier::external_body]
+    pub fn as_raw(&self) -> (r: &[u8])
+        ensures r@ == self.raw(), r@.len() == 4 * self.w() * self.h(),
+    { unimplemented!() }
+    /// ImageBuffer::from_raw: Some iff the buffer is large enough
+    #[verifier::external_body]
+    pub fn from_raw(width: u32, height: u32, buf: Vec<u8>) -> (r: Option<RgbaImage>)
+        ensures (r is Some) == (buf@.len() >= 4 * (width as int) * (height as int)),
+            r is Some ==> (r->0).w() == width && (r->0).h() == height && (r->0).raw() == buf@,
+    { unimplemented!() }
+}
+/// TRUSTED shim for `once(0).chain(0..h).chain(once(h - 1))` (R18): the rows 0, 0, 1, .., h-1, h-1
+#[verifier::external_body]
+pub struct BorderRows { _p: core::marker::PhantomData<u8> }
+pub uninterp spec fn border_rows_rem(it: BorderRows) -> Seq<usize>;
+impl Iterator for BorderRows {
+    type Item = usize;
+    #[verifier::external_body]
+    fn next(&mut self) -> Option<usize> { unimplemented!() }
+}
+impl vstd::std_specs::iter::IteratorSpecImpl for BorderRows {
+    open spec fn obeys_prophetic_iter_laws(&self) -> bool { true }
+    open spec fn remaining(&self) -> Seq<usize> { border_rows_rem(*self) }
+    open spec fn will_return_none(&self) -> bool { true }
+    open spec fn decrease(&self) -> Option<nat> { Some(border_rows_rem(*self).len()) }
+    open spec fn peek(&self, i: int) -> Option<usize> {
+        if 0 <= i < border_rows_rem(*self).len() { Some(border_rows_rem(*self)[i]) } else { None }
+    }
+}
+pub open spec fn clamp_m1(i: int, n: int) -> int { if i - 1 < 0 { 0 } else if i - 1 > n - 1 { n - 1 } else { i - 1 } }
+#[verifier::external_body]
+pub fn border_rows(first: usize, h: usize, last: usize) -> (r: BorderRows)
+    ensures border_rows_rem(r).len() == h + 2,
+        border_rows_rem(r)[0] == first, border_rows_rem(r)[h as int + 1] == last,
+        forall|i: int| 1 <= i <= h ==> #[trigger] border_rows_rem(r)[i] == (i - 1) as usize,
+{ unimplemented!() }
+// @end
+
+// @section utils_spec
+/// the source row of every output row: 0, 0, 1, .., h-1, h-1
+pub open spec fn bseq(h: int) -> Seq<usize> { Seq::new((h + 2) as nat, |i: int| clamp_m1(i, h) as usize) }
+/// one output row of extrude_border: source row r with its first and last pixel duplicated
+pub open spec fn ext_row(src: Seq<u8>, w: int, r: int) -> Seq<u8> {
+    src.subrange(r * 4 * w, r * 4 * w + 4) + src.subrange(r * 4 * w, r * 4 * w + 4 * w) + src.subrange(r * 4 * w + 4 * w - 4, r * 4 * w + 4 * w)
+}
+/// the first k output rows
+pub open spec fn ext_rows(src: Seq<u8>, w: int, rows: Seq<usize>, k: int) -> Seq<u8>
+    decreases k,
+{
+    if k <= 0 { Seq::empty() } else { ext_rows(src, w, rows, k - 1) + ext_row(src, w, rows[k - 1] as int) }
+}
+pub proof fn lemma_ext_rows_len(src: Seq<u8>, w: int, h: int, rows: Seq<usize>, k: int)
+    requires w >= 1, h >= 1, src.len() == 4 * w * h, 0 <= k <= rows.len(), forall|i: int| 0 <= i < rows.len() ==> 0 <= #[trigger] rows[i] < h,
+    ensures ext_rows(src, w, rows, k).len() == k * (4 * (w + 2)),
+    decreases k,
+{
+    if k > 0 {
+        lemma_ext_rows_len(src, w, h, rows, k - 1);
+        let r = rows[k - 1] as int;
+        assert(0 <= r * 4 * w && r * 4 * w + 4 * w <= 4 * w * h) by (nonlinear_arith) requires 0 <= r < h, w >= 1;
+        assert(ext_row(src, w, r).len() == 4 * (w + 2));
+        assert(ext_rows(src, w, rows, k) == ext_rows(src, w, rows, k - 1) + ext_row(src, w, r));
+        assert(k * (4 * (w + 2)) == (k - 1) * (4 * (w + 2)) + 4 * (w + 2)) by (nonlinear_arith);
+    } else {
+        assert(k * (4 * (w + 2)) == 0) by (nonlinear_arith) requires k == 0;
+    }
+}
+/// byte c of output pixel (x, y) is byte c of source pixel (clamp(x-1), row y)
+pub proof fn lemma_ext_rows_index(src: Seq<u8>, w: int, h: int, rows: Seq<usize>, k: int, x: int, y: int, c: int)
+    requires w >= 1, h >= 1, src.len() == 4 * w * h, 0 <= k <= rows.len(), forall|i: int| 0 <= i < rows.len() ==> 0 <= #[trigger] rows[i] < h,
+        0 <= y < k, 0 <= x < w + 2, 0 <= c < 4,
+    ensures
+        0 <= (y * (w + 2) + x) * 4 + c < ext_rows(src, w, rows, k).len(),
+        0 <= ((rows[y] as int) * w + clamp_m1(x, w)) * 4 + c < src.len(),
+        ext_rows(src, w, rows, k)[(y * (w + 2) + x) * 4 + c] == src[((rows[y] as int) * w + clamp_m1(x, w)) * 4 + c],
+    decreases k,
+{
+    lemma_ext_rows_len(src, w, h, rows, k);
+    lemma_ext_rows_len(src, w, h, rows, k - 1);
+    let i = (y * (w + 2) + x) * 4 + c;
+    assert(i == y * (4 * (w + 2)) + 4 * x + c) by (nonlinear_arith) requires i == (y * (w + 2) + x) * 4 + c;
+    assert(y * (4 * (w + 2)) + 4 * (w + 2) <= k * (4 * (w + 2))) by (nonlinear_arith) requires y + 1 <= k, w >= 1;
+    assert(0 <= y * (4 * (w + 2))) by (nonlinear_arith) requires 0 <= y, w >= 1;
+    let r = rows[y] as int;
+    assert(0 <= r * 4 * w && r * 4 * w + 4 * w <= 4 * w * h) by (nonlinear_arith) requires 0 <= r < h, w >= 1;
+    assert((r * w + clamp_m1(x, w)) * 4 + c == r * 4 * w + 4 * clamp_m1(x, w) + c) by (nonlinear_arith);
+    if y < k - 1 {
+        lemma_ext_rows_index(src, w, h, rows, k - 1, x, y, c);
+    } else {
+        let prev = ext_rows(src, w, rows, k - 1);
+        let row = ext_row(src, w, r);
+        assert(row.len() == 4 * (w + 2));
+        assert(prev.len() == y * (4 * (w + 2)));
+        assert(ext_rows(src, w, rows, k) == prev + row);
+        assert(0 <= 4 * x + c < 4 * (w + 2));
+        assert((prev + row)[i] == row[4 * x + c]);
+    }
 }
 // @end
